@@ -95,6 +95,64 @@ fn main() {
         writeln!(w, "{}", r).unwrap();
       }
     }
+    // `pairs`: interference test. For every request A on stdin: its answer alone (fresh thread, lunar-month memo reset), then,
+    // for every NEIGHBOUR request B (one argument of A perturbed; the same arguments under another op name of the batch; the
+    // date carried across New Year), the answer of A right after B in a fresh thread. One output line per request: `ok <n>` or
+    // `DIFF after <B> : <answer> instead of <answer alone>`. A memo with too coarse a key, a one-entry "same as last time"
+    // cache, a value kept across a refusal — all show up as a DIFF.
+    Some("pairs") => {
+      let stdin = io::stdin();
+      let lines: Vec<String> = stdin.lock().lines().map(|l| l.unwrap().trim().to_string()).filter(|l| !l.is_empty()).collect();
+      // op names and arities present in the batch (for the cross-op neighbours)
+      let mut kinds: Vec<(String, usize)> = Vec::new();
+      for l in &lines {
+        let p: Vec<&str> = l.split_whitespace().collect();
+        let k = (p[0].to_string(), p.len() - 1);
+        if !kinds.contains(&k) && kinds.len() < 12 { kinds.push(k); }
+      }
+      let fresh = |seq: Vec<String>| -> String {
+        tyme4rs::tyme::lunar::verif_lunar_month_cache_reset();
+        std::thread::spawn(move || { let mut last = String::new(); for s in &seq { last = util::exec_line_plain(s); } last })
+          .join().unwrap_or_else(|_| "THREAD-PANIC".to_string())
+      };
+      for a in &lines {
+        let p: Vec<&str> = a.split_whitespace().collect();
+        let op = p[0];
+        let args: Vec<i64> = match p[1..].iter().map(|x| x.parse::<i64>()).collect::<Result<Vec<_>, _>>() { Ok(v) => v, Err(_) => { writeln!(w, "ok 0").unwrap(); continue; } };
+        let alone = fresh(vec![a.clone()]);
+        let mut neigh: Vec<String> = Vec::new();
+        let fmt = |o: &str, v: &[i64]| -> String { let mut s = o.to_string(); for x in v { s.push(' '); s.push_str(&x.to_string()); } s };
+        for i in 0..args.len() {
+          let v = args[i];
+          for nv in [v + 1, v - 1, v + 60, v - 60, -v, 0, 1, 4, 12, 15, 23, 28, 31, v + 12, v - 12, v + 1000, v - 1000] {
+            if nv == v { continue; }
+            let mut b = args.clone(); b[i] = nv;
+            let s = fmt(op, &b);
+            if !neigh.contains(&s) { neigh.push(s); }
+          }
+        }
+        if args.len() >= 3 && (1..=9999).contains(&args[0]) && (1..=12).contains(&args[1].abs()) {
+          for (dy, m2, d2) in [(1i64, 1i64, args[2]), (1, 1, 11), (-1, 12, args[2]), (-1, 12, 25), (0, 12, 25), (0, 12, 31), (0, 1, 6), (0, args[1], 1)] {
+            let mut b = args.clone(); b[0] += dy; b[1] = m2; b[2] = d2;
+            let s = fmt(op, &b);
+            if !neigh.contains(&s) { neigh.push(s); }
+          }
+        }
+        for (ko, ka) in &kinds {
+          if ko == op { continue; }
+          let mut b: Vec<i64> = args.iter().cloned().take(*ka).collect();
+          let pad = [10i64, 0, 0, 1, 0, 0, 0];
+          while b.len() < *ka { let k = b.len().min(6); b.push(pad[k]); }
+          neigh.push(fmt(ko, &b));
+        }
+        let mut verdict = format!("ok {}", neigh.len());
+        for b in neigh {
+          let r = fresh(vec![b.clone(), a.clone()]);
+          if r != alone { verdict = format!("DIFF after {} : {} instead of {}", b, r, alone); break; }
+        }
+        writeln!(w, "{}", verdict).unwrap();
+      }
+    }
     Some("enum") => {
       let name = args.get(2).expect("stream name");
       let rest: Vec<String> = args[3..].to_vec();
